@@ -6,9 +6,10 @@
      describeStructType, describeTupleType/describeTuple, describeAnyType   (:606-855)
      describeVariantType / mergeDescriptions / unique / chopPath / canonicalPath   (:135-147, :231-239, :916-991)
      px.DescribeMismatch (:996), px.AssertType / px.AssertInstance / MismatchError (px/types.go:289-316)
-   for the type kinds of Model/Ty.v.  Not in the fragment (so never sent to the model): Callable, Init,
-   TypeAlias, TypeReference expected types (describeCallableType, describeInitType, describeTypeAliasType,
-   the unresolved-reference walk of `describe`).
+   for the type kinds of Model/Ty.v.  describeCallableType is modelled in Model/DescribeCallable.v (Callable
+   types over this universe).  Not in the fragment (so never sent to the model): Init, TypeAlias,
+   TypeReference expected types (describeInitType, describeTypeAliasType, the unresolved-reference walk
+   of `describe`).
 
    A mismatch is abstracted to (class, path): the expected/actual types a mismatch carries are used by the
    code only to word the message (text(), mergeMismatch's setExpected), never to decide which mismatches
@@ -18,6 +19,8 @@
    Runtime fault sites of the modelled code are explicit `Fault` results:
      FTupleIndex   expected.Types()[ex]        (describeTuple, :788)
      FMergeFirst   mismatches[0]               (mergeDescriptions, :955)
+     FNilType      a nil expected/actual type in a mismatch whose text() is worded from them (:365, :470, :529;
+                   used by Model/DescribeCallable.v, which tracks the presence of the carried types)
    (the type assertions to IntegerType in basicSizeMismatch.from/to cannot fail by Go typing: a size
    mismatch is only built from *IntegerType values and mergeMismatch's `case sizeMismatch` precedes the
    `case expectedActualMismatch` that could store another type.)
@@ -44,7 +47,7 @@ Inductive mclass :=
 | CUnresolvedTypeReference.
 Definition mismatch := (mclass * path)%type.
 
-Inductive fsite := FTupleIndex | FMergeFirst.
+Inductive fsite := FTupleIndex | FMergeFirst | FNilType.
 Inductive res (A : Type) := Ok (a : A) | Fault (s : fsite).
 Arguments Ok {A} a.
 Arguments Fault {A} s.
